@@ -25,6 +25,8 @@ SPEC = {
     'declined': ['from_string scanner over optional lines', 'agreement with the traceback module on live exceptions'],
     'trusted_base': ['re._parser', 'string.Formatter field parsing'], 'assumptions': [], 'exhaustive': True,
 }
+SPEC['explanation'] += " T25.modtable: every table of modules left out of the printed exception type contains '__main__' and 'builtins', and the sibling tables agree up to the Python 2 names."
+SPEC['decided'] += ['unprefixed-module tables agree']
 MANIFEST = {
     'technique': 'template/regex skeleton extraction and comparison (writer vs reader tables); must-pass-through and guard-shape checks',
     'text': ('Decides that what to_string writes is what from_string\'s patterns read (same literals, same field order, same '
